@@ -2,3 +2,5 @@
 import SpecVerif.Audit
 import SpecVerif.Model.Py
 import SpecVerif.Props.C13
+import SpecVerif.Props.C15
+import SpecVerif.Props.C18
